@@ -531,6 +531,11 @@ def corpus():
                  ["plugin:p", [["use", "u"], ["priority", "07"]]]]),
         # case collision: the last key in iteration order wins
         _mk([["a", "os"]], [["watcher:w", [["cmd", "$(circus.env.A) $(circus.env.a)"]]], ["env", [["A", "1"]]], ["env:w", [["a", "2"]]]]),
+        # fnmatch.translate drops a reversed range and reads the remainder anew (thorough pass, seed 11: the
+        # model kept the leftover `!` as a member; it now follows translate's chunking, see docs/NOTES.md)
+        {"prim": "fnmatch", "name": "a", "pat": "[b-[!]"}, {"prim": "fnmatch", "name": "a", "pat": "[b-a]"},
+        {"prim": "fnmatch", "name": "q", "pat": "[b-a!-z]"}, {"prim": "fnmatch", "name": "-", "pat": "[b-a!-z]"},
+        {"prim": "fnmatch", "name": "+", "pat": "[*--a]"}, {"prim": "fnmatch", "name": "]", "pat": "[]-a]"},
     ]
 
 
@@ -555,7 +560,7 @@ def gen_prim(rng):
         return {"prim": op, "text": "\n".join(lines) + rng.choice(["\n", ""])}
     if op == "fnmatch":
         return {"prim": op, "name": _rand_over(rng, "ab-]!", 0, 4),
-                "pat": _rand_over(rng, "ab*?[]!-", 0, 7) if rng.random() < 0.8 else _pattern_for(rng, _rand_over(rng, "abc", 1, 4), [])}
+                "pat": _rand_over(rng, rng.choice(["ab*?[]!-", "ab[]!-", "ab[]!-^\\&*"]), 0, 8) if rng.random() < 0.8 else _pattern_for(rng, _rand_over(rng, "abc", 1, 4), [])}
     if op == "expand":
         env = [[_rand_over(rng, "aAbB._-", 1, 3), _rand_over(rng, "xyz$()", 0, 4)] for _ in range(rng.randint(0, 4))]
         env = [kv for i, kv in enumerate(env) if kv[0] not in [e[0] for e in env[:i]]]
